@@ -463,6 +463,8 @@ def snapshot(ms) -> dict:
 _TEXT_ALPHABET = st.characters(
     blacklist_categories=("Cs", "Cc", "Zl", "Zp", "Cn", "Co"), blacklist_characters=":;/\\#﻿"
 )
+#: header comments that mention a '#' (a comment runs to the end of its line whatever it contains)
+header_comment_hash_st = st.sampled_from(["sync pass #2, tuned by ear", "#1", "take #3 (final)", "a#b", "# offset below", "#OFFSET was 0.1 before"])
 comment_text_st = st.text(alphabet="abcXYZ 0123456789-_[]().!'é日", max_size=16).map(str.strip)
 
 
@@ -720,7 +722,7 @@ def _file_style_st(draw, sk, stops_first):
         perm = list(draw(st.permutations(perm)))
     ex = []
     for _ in range(draw(st.integers(0, 3))):
-        ex.append([draw(st.integers(0, len(tags))), draw(st.one_of(st.none(), comment_text_st))])
+        ex.append([draw(st.integers(0, len(tags))), draw(st.one_of(st.none(), comment_text_st, header_comment_hash_st))])
     stops = "empty" if stops_first else draw(st.sampled_from(["empty", "absent", "absent", "empty-nl"]))
     return dict(
         tags=tags,
